@@ -88,7 +88,7 @@ def main():
     from harness import cls
     hist = []
     for kind, n, g in G.collections(ck.rng, 250 if ck.quick else 2500, 3, 6):
-        steps, cur = cls.gen_steps(ck.rng, n, g, 1, 3)
+        steps, cur = cls.gen_steps(ck.rng, n, g, 1, 3, expand=0.25)
         hist.append({"gens": g, "steps": steps, "n": n, "expect": cur, "orders": cls.gen_orders(ck.rng, len(steps) + 1)})
     hres = ck.impl("c02", hist, per_case_s=300)
     hc, hr = [], []
@@ -97,7 +97,7 @@ def main():
             continue   # an edit the library rejects is C10's business
         for si, stage in enumerate(r["stages"]):
             if stage["gens"]:
-                hc.append(("history:" + json.dumps({"gens": c["gens"], "steps": c["steps"][:si], "orders": c["orders"][:si + 1]}), c["n"], stage["gens"])); hr.append(stage)
+                hc.append(("history:" + json.dumps({"gens": c["gens"], "steps": c["steps"][:si], "orders": c["orders"][:si + 1]}), len(stage["gens"][0]), stage["gens"])); hr.append(stage)
     nt |= judge(ck, hc, hr, ck.oracle(requests(hc, hr)))
     ck.cov["history_stages"] = len(hc)
     byn = {}
